@@ -200,6 +200,20 @@ def k_args(run, case):
                 else pandas_bridge.result_to_df(r, label=label))
     elif fname == "trajectory_stats_to_df":
         guarded(run, case, fname, {"traj": A}, lambda: pandas_bridge.trajectories_stats_to_df({"a": A, "b": B}))
+    elif fname == "save_df_as_table":
+        # a statistics table written in every format and both orientations; row labels as tools
+        # produce them (not in sorted / natural order)
+        names = ["traj_10", "traj_2", "traj_1", "est b", "Est a"]
+        rng.shuffle(names)
+        df = pandas_bridge.trajectories_stats_to_df({names[0]: A, names[1]: B, names[2]: A})
+        if rng.random() < .5:
+            df = df.T
+        fmt_ = ["csv", "json", "html", "excel"][rng.integers(3)]
+        tp = os.path.join(work, "t%d.%s" % (case["rs"][-1], fmt_))
+        kw = {} if rng.random() < .3 else {"transpose": bool(rng.random() < .5)}
+        guarded(run, case, fname, {"df": df}, lambda: pandas_bridge.save_df_as_table(df, tp, format_str=fmt_, confirm_overwrite=False, **kw))
+        if os.path.exists(tp):
+            os.remove(tp)
     elif fname == "getters":
         guarded(run, case, fname, {"traj": A}, lambda: (A.get_infos(), A.get_statistics(), A.check(), str(A),
                                                         A.distances, A.speeds, A.path_length, A == B,
@@ -287,7 +301,7 @@ FUNCS = ["APE.process_data", "RPE.process_data", "statistics/get_result", "align
          "filters.filter_pairs_by_index", "filters.filter_pairs_by_path", "filters.filter_pairs_by_angle",
          "filters.filter_by_motion", "id_pairs_from_delta", "umeyama_alignment", "trajectory.merge",
          "merge_results", "Result.add_info/add_stats", "trajectory_to_df", "df_to_trajectory", "result_to_df", "trajectory_stats_to_df",
-         "getters", "split_*", "write_tum_trajectory_file", "write_kitti_poses_file", "write_bag_trajectory",
+         "save_df_as_table", "getters", "split_*", "write_tum_trajectory_file", "write_kitti_poses_file", "write_bag_trajectory",
          "save_res_file", "plot.traj", "plot.traj_colormap", "plot.draw_coordinate_axes",
          "plot.draw_correspondence_edges", "plot.traj_xyz", "plot.traj_rpy", "plot.speeds",
          "plot.error_array", "plot.trajectories"]
